@@ -1,5 +1,5 @@
 From Coq Require Extraction ExtrOcamlBasic.
-From NQ Require Import Queue.Clean.
+From NQ Require Import Queue.Clean Local.LspawnReport.
 Extraction Language OCaml.
 Extraction "extracted_C18.ml" clean_handle split_nul parse_cmds docmd reports del_event finishes
-  scan_ulong fmt_ulong dec_value messid_ok_from.
+  scan_ulong fmt_ulong dec_value messid_ok_from lspawn_report.
